@@ -192,6 +192,7 @@ func init() {
 			g(rep, "ERRDISC", func() { ruleERRDISC(p, rep, "", false) })
 			g(rep, "PRECOMMIT-NO-ALIAS", func() { rulePRECOMMITNOALIAS(p, rep) })
 			g(rep, "TRUNCATE-COVERS", func() { ruleTRUNCATECOVERS(p, rep) })
+			g(rep, "MAXSIZE-DECISION", func() { ruleMAXSIZEDECISION(p, rep) })
 		},
 	})
 	register(&propertyDef{
